@@ -287,6 +287,7 @@ def run_check(mod, tier, seed, jobs=None, replay_confirm=True):
             "known_finding_hits": dict(matched),
             "deviations_total": n_dev,
             "world": mod.world_description(tier) if hasattr(mod, "world_description") else "",
+            "bound": mod.bound_description(tier) if hasattr(mod, "bound_description") else "the world above, enumerated completely (no cap hit)",
             "repo": bootstrap.repo_path(),
         },
         "assumptions": list(getattr(mod, "ASSUMPTIONS", [])),
